@@ -122,9 +122,18 @@ func isEscapeCommand(x byte) bool {
 }
 
 func StrcaseStartsWith(str []byte, prefix []byte) (isValid bool) {
-	strLower := bytes.ToLower(str)
-	prefixLower := bytes.ToLower(prefix)
-	return bytes.HasPrefix(strLower, prefixLower)
+	// strncasecmp: fold ASCII letters only. (bytes.ToLower reads the Big5 bytes as
+	// UTF-8 and rewrites every invalid sequence to U+FFFD, so unrelated DBCS bytes
+	// compared equal and the match could end inside a double-byte character.)
+	if len(str) < len(prefix) {
+		return false
+	}
+	for idx, each := range prefix {
+		if types.CcharTolower(str[idx]) != types.CcharTolower(each) {
+			return false
+		}
+	}
+	return true
 }
 
 func Trim(str []byte) (newStr []byte) {
